@@ -90,3 +90,14 @@ func (w *World) Now() time.Time { return w.cfg.Now }
 
 // SetContainer replaces a container of a world that is owned by a single worker (not safe for shared worlds).
 func (w *World) SetContainer(id cid.ID, c container.Container) { w.cfg.Containers[id] = c }
+
+// SetEpoch / SetNow move the clock of a world owned by a single worker (sequences of presentations).
+func (w *World) SetEpoch(e uint64)  { w.cfg.Epoch = e }
+func (w *World) SetNow(t time.Time) { w.cfg.Now = t }
+
+// NewEpochHooks does what cmd/neofs-node registers for every new-epoch notification:
+// sessionsCache.ResetCache() and aclSvc.ResetTokenCheckCache().
+func (w *World) NewEpochHooks() {
+	w.Cache.ResetCache()
+	w.Svc.ResetTokenCheckCache()
+}
